@@ -59,7 +59,7 @@ AllProf == [L |-> "all", G |-> "all", H |-> "all", R |-> "all"]
 BadTypes == {"t0", "t4", "t5", "t9", "t255"}
 Cfgs == {c \in [kind : Kinds, route : Routes, prof : ProfSets, veto : Vetoes, vkind : {"veto", "panic"},
                 hout : Houts, dec : {"ok", "bad"}, rdec : {"ok", "bad"}, wret : {"atonce", "late"}, mtype : {"std"} \cup BadTypes,
-                pre : {"none", "deadlinewrite"}, res : {"std", "ageshort", "poolfull"}] :
+                pre : {"none", "deadlinewrite"}, res : {"std", "ageshort", "poolfull", "smalllimit"}] :
            /\ VetoOK(c)
            \* res: what the receiving side has to handle the message with.
            \*  "ageshort": the serving session's context age (the time limit of a handling context) is shorter than the handler
@@ -67,9 +67,12 @@ Cfgs == {c \in [kind : Kinds, route : Routes, prof : ProfSets, veto : Vetoes, vk
            \*     and the caller is told so by the framework's reply for a reply that could not be written (500) -- the call is
            \*     never left unanswered on a connection that stays up;
            \*  "poolfull": the goroutine pool of the process is exhausted when the frames arrive (SetGopool with a small bound,
-           \*     all slots busy): the frame is handled all the same, the outcome is that of the plain exchange.
+           \*     all slots busy): the frame is handled all the same, the outcome is that of the plain exchange;
+           \*  "smalllimit": the message size limit of the process is smaller than the reply the handler produces: the reply is
+           \*     refused BEFORE anything is written, and the caller gets the framework's reply for that (500) -- once.
            /\ (c.res # "std" => c.veto = NoVeto /\ c.kind = "call" /\ c.route \in {"reg", "unknown"} /\ c.dec = "ok" /\ c.rdec = "ok" /\ c.prof = AllProf
                                 /\ c.vkind = "veto" /\ c.wret = "atonce" /\ c.pre = "none" /\ c.hout \in {"ok", "status", "panic"})
+           /\ (c.res = "smalllimit" => c.hout = "ok")
            \* pre = "deadlinewrite": earlier on, the serving session wrote a message of its own under a context deadline (a push
            \* with a timeout), and that deadline has passed since; the exchange must not be affected
            /\ (c.pre # "none" => c.veto = NoVeto /\ c.kind = "call" /\ c.dec = "ok" /\ c.rdec = "ok" /\ c.prof = AllProf /\ c.vkind = "veto" /\ c.wret = "atonce")
@@ -171,9 +174,9 @@ SWrite ==      \* writeReply; postWriteReply
   /\ pc = "sWrite" /\ replies' = replies + 1
      \* a result that cannot be marshalled makes the first write fail; the handler context then replies 500
      \* so does a handling context that has expired (the handler outlived the context age)
-  /\ wstat' = IF (cfg.hout = "unpackable" /\ invoked = 1 /\ stat = "ok") \/ (cfg.res = "ageshort" /\ invoked = 1) THEN "500" ELSE stat
+  /\ wstat' = IF (cfg.hout = "unpackable" /\ invoked = 1 /\ stat = "ok") \/ (cfg.res = "ageshort" /\ invoked = 1) \/ (cfg.res = "smalllimit" /\ invoked = 1 /\ stat = "ok") THEN "500" ELSE stat
   /\ IF Recovered \/ (Vetoed(cont, "PreWriteReply") /\ cfg.vkind = "panic") \/ (cfg.hout = "unpackable" /\ invoked = 1 /\ stat = "ok")
-        \/ (cfg.res = "ageshort" /\ invoked = 1)
+        \/ (cfg.res = "ageshort" /\ invoked = 1) \/ (cfg.res = "smalllimit" /\ invoked = 1 /\ stat = "ok")
        THEN UNCHANGED hooks ELSE hooks' = hooks \o Log(cont, "PostWriteReply")
   /\ pc' = "cReadHeader"
   /\ UNCHANGED <<cfg, cont, stat, chooks, invoked, cstat, disc, written>>
@@ -226,7 +229,7 @@ VetoStops == Done /\ cfg.veto # NoVeto /\ cfg.vkind = "veto" /\ cfg.veto[1] # "C
 CallerVetoStops == Done /\ cfg.veto \in {<<"CL", "PreWriteCall">>, <<"CL", "PreWritePush">>} => ~written /\ hooks = <<>> /\ cstat = "veto"
 \* C04: OK iff the handler ran to completion, returned OK and the reply was decoded
 OKIff == Done /\ cfg.kind = "call" =>
-           ((cstat = "ok") <=> (invoked = 1 /\ cfg.hout = "ok" /\ cfg.res # "ageshort" /\ wstat = "ok" /\ (ReplyDecodeFix => cfg.rdec = "ok")
+           ((cstat = "ok") <=> (invoked = 1 /\ cfg.hout = "ok" /\ cfg.res \notin {"ageshort", "smalllimit"} /\ wstat = "ok" /\ (ReplyDecodeFix => cfg.rdec = "ok")
                                 /\ cfg.veto \notin {<<"CL", "PostReadReplyHeader">>, <<"CL", "PreReadReplyBody">>, <<"CL", "PostReadReplyBody">>}))
 \* C09: only plugins of the global container or the matched chain fire
 Scoped == \A i \in 1..Len(hooks) : hooks[i][1] \in {"L", "R"} \/ cfg.route = "reg"
